@@ -21,7 +21,8 @@ RULE = ("col: 2-3 repositories (app->lib; app->lib,util; app->mid->lib), compone
         "branches forking/merging, pins moving by 0-2 component builds and never decreasing along a path (25%: the oldest "
         "parent commits pin a version that is no build tag), tags on half the commits, commit times tight (30%), spread "
         "inside the windows (60%) or anywhere (10%, not judged), both supply orders; ord: random dependency graphs over <=6 repositories incl. cycles, self-dependencies and "
-        "unknown components, shuffled supply order. non-trivial = col with a non-empty included_at somewhere, or ord with >=2 "
+        "unknown components, shuffled supply order; every collection is analysed twice (the second answer must equal the "
+        "first). non-trivial = col with a non-empty included_at somewhere, or ord with >=2 "
         "repositories; distinct by protocol line")
 TRUSTED = ["tests/mock_git.py (synthetic git objects fed to the real ak.ghist code)",
            "sorted() on repository names (the model sorts the ranks of the names)",
@@ -67,6 +68,9 @@ def dec_repo(tok):
                  "m": int(m), "ts": int(ts), "pins": {}}
             if other:
                 c["xt"] = other
+            c["names"] = [] if tg == "-" else [dec_str(x) for x in tg.split("+")]
+            if sv != "-":
+                c["sv"] = [int(x) for x in sv.split(".")]
             if pins != "-":
                 for q in pins.split("+"):
                     k, v = q.split("=")
@@ -120,7 +124,15 @@ def run_col(repos):
         objs[r["name"]] = cls[r["name"]](r["name"], G.mock_repo(r["hist"], r["name"], TEXT, pins_file="DEP_"), G.REMOTE)
     rc = ReposCollection(objs)
     data = dict(rc.make_reports_data(TEXT))
+    # the collection can be asked again: the second answer must not depend on the first call
+    again = dict(rc.make_reports_data(TEXT))
+    if sorted(again) != sorted(data) or any(_repo_text(k, again[k]) != _repo_text(k, data[k]) for k in data):
+        raise SecondCallDiffers("make_reports_data answers differently the second time")
     return rc.sorted_repos, data
+
+
+class SecondCallDiffers(Exception):
+    pass
 
 
 def impl(case):
@@ -735,7 +747,7 @@ def shrink(case):
                 used = any(tuple(c2.get("pins", {}).get(r["name"], [])) in [tuple(bn[:3]) for bn in c["t"]]
                            for o in repos for c2 in o["hist"]["commits"])
                 if not used:
-                    cs = h["commits"][:k] + [dict(c, t=[])] + h["commits"][k + 1:]
+                    cs = h["commits"][:k] + [dict(c, t=[], xt=[], names=None)] + h["commits"][k + 1:]
                     yield mk(repos[:ri] + [dict(r, hist={"commits": cs, "refs": h["refs"]})] + repos[ri + 1:])
 
 
